@@ -331,7 +331,10 @@ impl Envelope {
                 if !self.is_signature_from_key(&signature, key) {
                     return None;
                 }
-                Some(Ok(Some(signature_object.clone())))
+                // Only the signature itself: assertions placed directly on
+                // the signature object (without the wrapped-and-signed form
+                // above) are covered by no signature and are not metadata.
+                Some(Ok(Some(signature_object.subject())))
             } else {
                 Some(Err(anyhow::anyhow!("Unexpected signature object type.")))
             }
